@@ -349,6 +349,23 @@ Proof.
 Qed.
 Print Assumptions job_record_keys_prefix_free.
 
+(** Both messengers hex-encode the contract's payload bytes and wrap them UNCONDITIONALLY: the
+    legacy unmarshallJob is straight-line code (the translator refuses any branch in it), the new
+    messenger's only condition on the payload is the emptiness guard.  This is what the model's
+    [wasm_wrap raw] for every [raw] -- also for bytes that happen to look like a payload document,
+    a hex string or a job definition -- stands on. *)
+Theorem contract_payload_wrapped_unconditionally :
+  Gen.C17.legacy_unmarshal_stmts =
+    ["var executeMsg executeJobWasmEvent"; "err := json.Unmarshal(msg, &executeMsg)";
+     "hexString := hex.EncodeToString(executeMsg.Payload)";
+     "executeMsg.Payload = []byte(fmt.Sprintf(""{\""hexPayload\"":\""%s\""}"", hexString))";
+     "return executeMsg, err"]%string /\
+  Gen.C17.binding_payload_stmts =
+    ["if len(e.Payload) == 0"; "hexString := hex.EncodeToString(e.Payload)";
+     "injected := []byte(fmt.Sprintf(""{\""hexPayload\"":\""%s\""}"", hexString))"]%string.
+Proof. exact (conj eq_refl eq_refl). Qed.
+Print Assumptions contract_payload_wrapped_unconditionally.
+
 (** The model mirrors the source as it is now (translated on every check): pad size and append
     order of injectSenderIntoPayload, the order sender-then-contract of the suffix source, what
     feeds each SubmitLogicCall / Message field, the two payload guards of ScheduleNow, the
